@@ -71,7 +71,7 @@ def base_env():
 
 
 def vh_path(cfg):
-    return os.path.join(VERIF, "build", "san", "vh", cfg["vh"])
+    return os.path.join(os.environ.get("VH_BIN_DIR") or os.path.join(VERIF, "build", "san", "vh"), cfg["vh"])
 
 
 def run_target(cfg, target, env, replay_file, timeout=600):
@@ -286,8 +286,6 @@ def main(prop="c62"):
         cls("ops-in-trace", len(ops))
         cls("writes-in-trace", writes)
         cls("fsyncs-in-trace", syncs)
-        if writes and syncs == 0:
-            broken("the workload never called fsync/fdatasync: it does not run with the production SQLite durability")
         # cut selection ------------------------------------------------------------------------------------------------
         lo = 0 if cfg["focus"] == "atomic" else k0  # C43: wallet creation (descriptor setup) is itself one of the atomic groups
         cand = [op.i for op in ops if op.i >= lo and op.kind in ("w", "s", "t", "x", "r", "u", "c")] + [len(ops)]
